@@ -149,6 +149,8 @@ class Node:
             value_str = 'true' if value else 'false'
         elif isinstance(value, float):
             value_str = _float_to_yaml(value)
+        elif value is None:
+            value_str = 'null'
         else:
             value_str = str(value)
         start_mark = self.yaml_node.start_mark
